@@ -208,6 +208,32 @@ func famCrash(r *Rand, base, pool, at, at2 int) *seqScenario {
 	return b.sc
 }
 
+// famLocalCrash: the crash family over the real filesystem backend (every effective upload also goes to a
+// LocalBackend), with entries large enough for data tiles above the backend's 16 KiB comparison buffer: a recovery
+// re-uploads tiles that are already there, byte for byte.
+func famLocalCrash(r *Rand, n, at int) *seqScenario {
+	b := newScb("localcrash", 0, r)
+	b.boot(0)
+	b.grow(0, r.Intn(3))
+	for i := 0; i < n; i++ {
+		e := b.entry(seqEntrySpec{Kind: "rand", Size: 300 + r.Intn(200)})
+		b.cmd(seqCmd{Op: "submit", Inst: 0, Entry: e})
+	}
+	b.cmd(seqCmd{Op: "clock", V: 5})
+	b.cmd(seqCmd{Op: "round", Inst: 0})
+	b.cmd(seqCmd{Op: "run", Inst: 0, Max: at}) // 0: clock … 1: staging, 2: lock, 3…: tiles, then the checkpoint
+	b.cmd(seqCmd{Op: "crash", Inst: 0})
+	b.cmd(seqCmd{Op: "clock", V: 3})
+	b.cmd(seqCmd{Op: "start", Inst: 0})
+	b.cmd(seqCmd{Op: "run", Inst: 0})
+	b.submitN(0, 1+r.Intn(2), true)
+	b.roundOK(0)
+	b.cmd(seqCmd{Op: "crash", Inst: 0})
+	b.cmd(seqCmd{Op: "start", Inst: 0})
+	b.cmd(seqCmd{Op: "run", Inst: 0})
+	return b.sc
+}
+
 // famClock: rounds under clock anomalies.
 func famClock(r *Rand) *seqScenario {
 	b := newScb("clock", 0, r)
@@ -678,7 +704,7 @@ func genScenarios(o *Opts, r *Rand) []*seqScenario {
 		want := map[string][]string{
 			"C01": {"basic", "fault", "clock", "crash", "runseq", "startup"},
 			"C02": {"basic", "fault", "dup", "crash", "pool", "bigpool"},
-			"C03": {"crash", "fault"},
+			"C03": {"crash", "fault", "localcrash"},
 			"C04": {"basic", "fault", "crash", "issuerrace"},
 			"C06": {"multi", "startup", "runseq", "stalelock"},
 			"C07": {"dup", "pool", "issuerrace", "bigpool", "legacy"},
@@ -765,6 +791,11 @@ func genScenarios(o *Opts, r *Rand) []*seqScenario {
 	if fam("startup") {
 		for i := 0; i < 14*mul; i++ {
 			add(famStartup(r.Fork()))
+		}
+	}
+	if fam("localcrash") {
+		for i := 0; i < 4*mul; i++ {
+			add(famLocalCrash(r.Fork(), 50+r.Intn(40), 2+r.Intn(5)))
 		}
 	}
 	if fam("stalelock") {
